@@ -198,7 +198,12 @@ def expr_names_safe(e):
 NAME_CHARS = "abcxyzABZ019__" + "\u010d\u00e9\u00df\u03bb\u0416\u4e2d\U0001d518" + "+-*/.,;#@~%$[]{}'\"\\"
 
 
+NEAR_KEYWORDS = ["True", "FALSE", "tRuE", "False", "TRUE", "xtrue", "true_", "truefalse", "tru", "fals", "t", "f", "0", "1"]
+
+
 def rand_name(rng):
+    if rng.random() < 0.15:
+        return rng.choice(NEAR_KEYWORDS)
     while True:
         nm = "".join(rng.choice(NAME_CHARS) for _ in range(rng.choice([1, 1, 2, 3, 5])))
         if name_safe(nm):
